@@ -78,8 +78,23 @@ fn gen_smx(r: &mut Rng, max_obj: usize, max_pts: usize, max_tri: usize, max_cp: 
     s.dimensions = r.below(256) as u8;
     s.resolution = r.below(256) as u8;
     s.vertex_colours = r.below(256) as u8;
-    let tl = r.usize_below(33);
-    s.track = (0..tl).map(|_| (b'A' + r.below(26) as u8) as char).collect();
+    let tl = if r.chance(1, 3) { 32 } else { r.usize_below(33) };
+    if r.chance(1, 2) {
+        s.track = (0..tl).map(|_| (b'A' + r.below(26) as u8) as char).collect();
+    } else {
+        // codepage text with escaped carets and colours, up to the full 32 encoded bytes (no terminator then)
+        const PIECES: [&str; 14] = ["A", "z", "7", " ", "_", "^^", "^1", "^8", "é", "ш", "ě", "日", "タ", "^^"];
+        let mut t = String::new();
+        loop {
+            let mut n = t.clone();
+            n.push_str(PIECES[r.usize_below(PIECES.len())]);
+            if crate::corpus::enc_len(&n) > tl {
+                break;
+            }
+            t = n;
+        }
+        s.track = t;
+    }
     s.ground_colour = Rgb { r: r.below(256) as u8, g: r.below(256) as u8, b: r.below(256) as u8 };
     let no = r.usize_below(max_obj + 1);
     s.objects = (0..no)
@@ -103,7 +118,7 @@ fn gen_smx(r: &mut Rng, max_obj: usize, max_pts: usize, max_tri: usize, max_cp: 
 fn ref_smx_bytes(s: &Smx) -> Vec<u8> {
     let mut b = b"LFSSMX".to_vec();
     b.extend_from_slice(&[s.game_version, s.game_revision, s.smx_version, s.dimensions, s.resolution, s.vertex_colours, 0, 0, 0, 0]);
-    let mut t = s.track.as_bytes().to_vec();
+    let mut t = crate::corpus::real_text_enc(&s.track, false);
     t.resize(32, 0);
     b.extend_from_slice(&t);
     b.extend_from_slice(&[s.ground_colour.r, s.ground_colour.g, s.ground_colour.b]);
